@@ -125,16 +125,16 @@ theorem cookedChildren_chain (f : Forest) (fuel : Nat) (d : CDie) :
       exact ⟨pre ++ [x.off], by simp [hp]⟩
     · simp at hx; subst hx; exact ⟨[], by simp⟩
 
-/-- `parent` of a cooked DIE that is not directly below a partial unit's root keeps the DIE's
+/-- `parent` of a cooked DIE that is not directly below a unit's root keeps the DIE's
     import chain: a later `parent` can still leave the partial unit through it (F6) -/
 theorem cookedParent_keeps_chain (f : Forest) (fuel : Nat) (d p : Die) (chain : List Nat)
-    (hp : rawParent f d = some p) (ht : (p.tag == DW_TAG_partial_unit) = false) :
+    (hp : rawParent f d = some p) (ht : isUnitRoot f p = false) :
     cookedParent f (fuel + 1) ⟨d, chain⟩ = some ⟨p, chain⟩ := by
   simp [cookedParent, hp, ht]
 
-/-- at a partial unit's root the walk continues from the importing DIE with the rest of the chain -/
+/-- at the root of an imported unit the walk continues from the importing DIE with the rest of the chain -/
 theorem cookedParent_leaves_partial_unit (f : Forest) (fuel : Nat) (d p imp : Die) (i : Nat) (rest : List Nat)
-    (hp : rawParent f d = some p) (ht : (p.tag == DW_TAG_partial_unit) = true)
+    (hp : rawParent f d = some p) (ht : isUnitRoot f p = true)
     (hi : findDie f i = some imp) :
     cookedParent f (fuel + 1) ⟨d, i :: rest⟩ = cookedParent f fuel ⟨imp, rest⟩ := by
   simp [cookedParent, hp, ht, hi]
